@@ -239,6 +239,10 @@ class Vc:
                 #     `for (I, P) in E.into_iter().enumerate().take(N)` / `.iter().enumerate()`  ->  `for I in 0..N { let P = E[I]; .. }`
                 m = re.match(r'(\d+)\s+(\w+)\s+(.+)$', rest)
                 fn.iter_rewrites[int(m.group(1))] = (m.group(2), m.group(3).strip())
+            elif word == 'for-counter':
+                # R6: `for (I, X) in E.into_iter().enumerate() { B }`  ->  `let mut I: usize = 0; for X in NAME: E { B; I = I + 1; }`
+                m = re.match(r'(\d+)\s+(\w+)\s*$', rest)
+                fn.iter_rewrites[int(m.group(1))] = ('@counter', m.group(2))
             elif word == 'end':
                 pass
             else:
@@ -303,7 +307,10 @@ class Extractor:
         vc = self.vc
         self.out = out
         for text, p, ln in vc.prelude:
-            self.out.add(text, {'kind': 'vc', 'file': p, 'line': ln, 'part': 'prelude'})
+            if getattr(self, 'as_base', False):
+                # base unit: lemmas are proved in their own unit; here they are assumed by their statements (bodies skipped)
+                text = re.sub(r'(?m)^(\s*)((?:pub\s+)?(?:broadcast\s+)?proof\s+fn\b)', r'\1#[verifier::external_body] \2', text)
+            self.out.add(text, {'kind': 'vc', 'file': p, 'line': ln, 'part': 'prelude', 'base': getattr(self, 'as_base', False)})
         for rel in vc.sources:
             path = os.path.join(self.repo, rel)
             sf = SourceFile(path)
@@ -326,12 +333,15 @@ class Extractor:
             bdefs = dict(vc.defines)
             bdefs.pop('canary', None)
             bvc = Vc(os.path.join(os.path.dirname(vc.path), b), bdefs)
-            base_exs.append(Extractor(self.repo, bvc))
+            bex = Extractor(self.repo, bvc)
+            bex.as_base = True
+            base_exs.append(bex)
         for hv in [e.vc for e in base_exs] + [vc]:
             for text, p, ln in hv.header:
-                if text not in seen_hdr:
-                    seen_hdr.add(text)
-                    out.add(text, {'kind': 'vc', 'file': p, 'line': ln})
+                for k, line in enumerate(text.split('\n')):
+                    if line.strip() and line not in seen_hdr:
+                        seen_hdr.add(line)
+                        out.add(line, {'kind': 'vc', 'file': p, 'line': ln + k})
         out.add("verus! {", {'kind': 'gen'})
         for e in base_exs:
             out.add("// ===================== base unit %s: at the crate root, NOT verified in this unit (proved in its own unit; seen here through its contracts)" % e.vc.unit, {'kind': 'gen'})
@@ -614,6 +624,9 @@ class Extractor:
         header = re.sub(r'\{\s*(\w+)\s*\}', r'\1', header)      # OrderBook<{ LEVELS }> -> OrderBook<LEVELS>
         self.out.add(header.rstrip() + " {", {'kind': 'src', 'file': sf.rel, 'line': sf.line_of(hdr_s)})
         for sub in it.items:
+            if 'cfg(test)' in ' '.join(a[2] for a in sub.attrs).replace(' ', ''):
+                self.rule('R1', sf.rel, sf.line_of(sub.start), 'drop #[cfg(test)] member %s%s' % (prefix, sub.name))
+                continue
             if sub.kind == 'fn':
                 q = prefix + sub.name
                 reason = self.dropped_by("fn " + q)
@@ -661,14 +674,18 @@ class Extractor:
             if t.text == 'Self' and i + 2 < len(toks) and toks[i + 1].text == '::' and (prefix[:-2], toks[i + 2].text) in assoc:
                 edits.append((t.start, toks[i + 2].end, assoc[(prefix[:-2], toks[i + 2].text)], {'kind': 'rule', 'rule': 'R3'}))
         origin_fn = lambda p, ln: {'kind': 'vc', 'file': p, 'line': ln, 'fn': q, 'tags': tags}
+        if getattr(self, 'as_base', False):
+            # base unit: the function is proved in its own unit; here only its contract is visible (body skipped by the verifier)
+            edits.append((it.kw_start, it.kw_start, '#[verifier::external_body]\n' + indent, {'kind': 'gen'}, -6))
         body = Body(it.body)
         self.loop_guard_edits(sf, body, edits, q)
-        if spec is not None and spec.iter_rewrites:
+        base = getattr(self, 'as_base', False)
+        if spec is not None and spec.iter_rewrites and not base:
             self.for_index_edits(sf, body, spec, edits, q)
         if spec is not None:
             for at in spec.attrs:
                 edits.append((it.kw_start, it.kw_start, at + '\n' + indent, {'kind': 'gen'}, -5))
-            if spec.external_body:
+            if spec.external_body and not getattr(self, 'as_base', False):
                 edits.append((it.kw_start, it.kw_start, '#[verifier::external_body]\n' + indent, {'kind': 'gen'}, -5))
                 finfo['external_body'] = True
             # named return value
@@ -694,12 +711,14 @@ class Extractor:
                 edits.append((it.body.start, it.body.start, '\n' + text + '\n' + indent, origin_fn(p, ln - 1), -2))
                 for k, (xt, xp, xl) in enumerate(spec.sig_extra):
                     edits.append((it.body.start, it.body.start, xt + '\n' + indent, origin_fn(xp, xl), -1.9 + k * 0.01))
-            self.anchor_edits(sf, it, body, spec, edits, q, origin_fn)
+            if not base:
+                self.anchor_edits(sf, it, body, spec, edits, q, origin_fn)
             if self.vc.defines.get('canary') and spec.sig and not spec.external_body:
                 # vacuity canary: with the function's preconditions in force `false` must NOT be provable at entry
                 edits.append((it.body.open.end, it.body.open.end, '\n        proof { assert(false); } // [canary]\n', {'kind': 'canary', 'fn': q}, -9))
                 finfo['canary'] = True
-        self.closure_rewrites(sf, body, spec, edits, q, origin_fn)
+        if not base:
+            self.closure_rewrites(sf, body, spec, edits, q, origin_fn)
         segs = self.render(sf, it.start, it.end, self.dedup(edits))
         finfo['gen_start'] = len(self.out.lines) + 1
         self.out.add_segments([(indent, {'kind': 'gen'})] + segs)
@@ -732,6 +751,21 @@ class Extractor:
             toks = [e.text if not is_group(e) else '()' for e in expr]
             tail = ''.join(toks)
             pat_src = src[pat[0].start:pat[-1].end]
+            if idx == '@counter':
+                j = len(expr)
+                ok = j >= 6 and is_group(expr[j - 1], '(') and is_tok(expr[j - 2], 'enumerate') and is_tok(expr[j - 3], '.') \
+                    and is_group(expr[j - 4], '(') and is_tok(expr[j - 5], 'into_iter') and is_tok(expr[j - 6], '.')
+                inner = [e for e in pat[0].children if not is_tok(e, ',')] if (len(pat) == 1 and is_group(pat[0], '(')) else []
+                if not ok or len(inner) != 2 or not is_tok(inner[0], kind='ident') or lp.stmt.kind == 'arm':
+                    raise Unsupported("%s: loop %d is not `for (i, x) in E.into_iter().enumerate()` (R6)" % (q, k))
+                cnt = inner[0].text
+                item = src[inner[1].start:inner[1].end]
+                base = src[expr[0].start:expr[j - 7].end]
+                edits.append((lp.stmt.start, lp.stmt.start, 'let mut %s: usize = 0;\n        ' % cnt, {'kind': 'rule', 'rule': 'R6'}, -8))
+                edits.append((pat[0].start, expr[-1].end, '%s in %s: %s' % (item, length, base), {'kind': 'rule', 'rule': 'R6'}))
+                edits.append((lp.body.close.start, lp.body.close.start, '; %s = %s + 1;\n        ' % (cnt, cnt), {'kind': 'rule', 'rule': 'R6'}, 9))
+                self.rule('R6', sf.rel, sf.line_of(lp.kw.start), 'for (%s, %s) in %s.into_iter().enumerate() -> explicit counter %s over `for %s in %s` in %s' % (cnt, item, base, cnt, item, base, q))
+                continue
             def chain_start(names):
                 # expr ends with .name1().name2()... ; returns index in expr where the chain starts, or None
                 j = len(expr)
